@@ -119,8 +119,30 @@ def small_scope_cases(ctx):
     ctx.notes.append("exhaustive small scope: every formula with at most two connectives over two boolean leaves")
 
 
+def accepted_mutants(ctx):
+    """C10's adversarial mutations (second definitions of an id, coinciding generated ids, …) that errors() lets through are
+    validated models: the statement must hold for them too.  The unchanged errors() rejects every ill-defined one."""
+    from props.c10 import mutate
+    for _ in range(150 if ctx.quick else 900):
+        a, o, t = gen_valid(ctx.rng, ctx.quick, twins=False, wide_p=0.0)
+        m, op = mutate(ctx.rng, a)
+        try:
+            om = build(m)
+            if is_var(om) or om.errors():
+                continue
+            tm = snap(om)
+        except Exception:
+            continue
+        leaf_ids = {n["id"] for n in subs(tm) if n["k"] == "leaf"}
+        if leaf_ids & set(compound_ids(tm)) or not free01(tm) or well_formed(tm):
+            continue
+        ctx.tags["ill-defined-model-accepted-by-errors"] += 1
+        do_case(ctx, {"ast": m})
+
+
 def run(ctx):
     small_scope_cases(ctx)
+    accepted_mutants(ctx)
     n_models = (250 if ctx.quick else 1200) * (3 if ctx.search else 1)
     for _ in range(n_models):
         a, o, t = gen_valid(ctx.rng, ctx.quick, wide_p=0.0, empty_p=0.08)
